@@ -15,7 +15,7 @@
     than raise again or exhaust fuel) is a termination property, covered by the harness
     k_faults only. *)
 From Coq Require Import String List ZArith Bool Arith.
-From PV.DSL Require Import Syntax Values Target Compile Interp Exec Laws Sound CompileProps Main Faults Regular Examples.
+From PV.DSL Require Import Syntax Values Target Compile Interp Exec Laws Sound CompileProps Main Faults Regular Examples PropsLemmas.
 From PV.Gen Require Import Algorithms_gen.
 Import ListNotations.
 Open Scope string_scope.
@@ -44,20 +44,7 @@ Theorem C11_exn_safe :
           forall fuel0 c0 tb0 v0 s0,
             run O alg (compile alg) (with_faults W (fun _ => None)) fuel0 (init_state alg W c0) (tb0, name, ix) = (Ok v0, s0) ->
             eqv (den O v0) w.
-Proof.
-  intros V O eqv L alg W sfn WO fp fuel c rs os s1 E NO.
-  pose proof (world_ok_faults fp WO) as WO1.
-  destruct (@schedule_sound V O eqv L alg (with_faults W fp) sfn WO1 fuel c rs os s1 E NO) as (I1 & NP1 & _).
-  split; [exact NP1|].
-  intros fuel' tb name ix r s2 E2 NO2.
-  destruct (@request_sound V O eqv L alg (with_faults W fp) sfn WO1 fuel' s1 tb name ix r s2 I1 E2 NO2) as (_ & NP2 & _ & P2).
-  split; [exact NP2|]. intros v -> f w Ef. split; [exact (P2 v eq_refl f w Ef)|].
-  intros fuel0 c0 tb0 v0 s0 E0.
-  pose proof (world_ok_faults (fun _ => None) WO) as WO0.
-  destruct (@request_sound V O eqv L alg (with_faults W (fun _ => None)) sfn WO0 fuel0 _ tb0 name ix _ s0
-              (init_reachable L alg (with_faults W (fun _ => None)) sfn c0) E0 ltac:(discriminate)) as (_ & _ & _ & P0).
-  exact (P0 v0 eq_refl f w Ef).
-Qed.
+Proof. exact L_C11_exn_safe. Qed.
 Print Assumptions C11_exn_safe.
 
 (** non-vacuity: a KeyboardInterrupt-like fault at the 7th callback invocation of the shipped
